@@ -38,6 +38,7 @@ Pool == {
   [extend |-> [precedence |-> "override", units |-> [min |-> [names |-> <<"minuto">>], h |-> [ratio |-> 3601]]]],
   [extend |-> [units |-> [kg |-> [aliases |-> <<"kilo">>]]]],                                                                \* alias on an SI-expanded unit
   [extend |-> [units |-> [kg |-> [ratio |-> 2]]]],                                                                           \* edits an expanded unit
+  [extend |-> [units |-> [g |-> [ratio |-> 2]]]],                                                                            \* the parent of expanded units is re-based: kg, mg ... follow
   [extend |-> [units |-> [lb |-> [ratio |-> 10]]]],                                                                          \* a best unit changes its place in the list
   [extend |-> [units |-> [lb |-> [aliases |-> <<"libra">>]]]],                                                               \* a key that only the extend adds ...
   [quantity |-> << [quantity |-> "mass", best |-> [metric |-> <<"g", "kg">>, imperial |-> <<"oz", "libra">>]] >>],           \* ... named by a best list
